@@ -15,6 +15,7 @@ import (
 
 	"github.com/goatcms/goatcore/app/modules/commonm/commservices"
 	"github.com/goatcms/goatcore/app/modules/pipelinem/pipservices"
+	"github.com/goatcms/goatcore/app/modules/pipelinem/pipservices/namespaces"
 
 	"verif/checks/pipx"
 	"verif/explore"
@@ -165,6 +166,12 @@ func build(sp Spec, o *obs) func() {
 				wait = sharedWait[:len(t.Wait)]
 			}
 			pip := w.Pip(t.Name, body(t), wait, lock, tscope)
+			if i := strings.LastIndex(t.Name, ":"); i >= 0 {
+				// "p:a" = the task a submitted in the namespace p (the manager knows it as p:a; its own short
+				// name is a - the same as that of the top-level task a)
+				pip.Name = t.Name[i+1:]
+				pip.Namespaces = namespaces.NewNamespaces(pipservices.NamasepacesParams{Task: t.Name[:i], Lock: ""})
+			}
 			if t.Sandbox != "" {
 				pip.Sandbox = t.Sandbox
 			}
@@ -455,6 +462,10 @@ func programs(thorough bool) []Spec {
 			bb = 0
 		}
 		ps = append(ps, Spec{Tasks: []TaskSpec{fail(t("a"), f1), t("b")}, Bound: bb, Split: thorough && bb > 0})
+	}
+	// two prerequisites with the same short name in different namespaces (a and p:a) are two tasks
+	for _, f := range []string{"", "return1"} {
+		ps = append(ps, Spec{Tasks: []TaskSpec{t("a"), fail(t("p:a", "a"), f), t("c", "a", "p:a")}, Bound: b})
 	}
 	y := t("a")
 	y.Yield = 1
